@@ -25,7 +25,7 @@ META = {
                   "queue, which is about C04/C12, not about this statement).",
     "rule": "case = one scenario (number of condvars + per-actor scripts); non-trivial = distinct scenarios, fully checked, in which a notification "
             "reached a waiter or a timed wait timed out",
-    "ready": False,
+    "ready": True,
 }
 
 DIRECTED = [
@@ -37,6 +37,7 @@ DIRECTED = [
     {"mode": "cv", "ncv": 1, "scripts": [["N0", "W0", "U0"], ["S1", "L0", "S1", "U0"]]},             # a notification without waiter is lost
     {"mode": "cv", "ncv": 1, "scripts": [["F0:2", "S1", "U0"], ["F0:2", "U0"], ["S1", "L0", "B0", "S3", "U0"], ["S2", "W0", "U0"]]},
     {"mode": "cv", "ncv": 2, "scripts": [["W0", "N1", "U0"], ["W1", "U1"], ["S1", "L0", "N0", "U0"], ["F1:t", "U1"]]},
+    {"mode": "cv", "ncv": 1, "scripts": [["F0:2", "U0"], ["F0:t", "S2", "U0"]]},    # timed out at the deadline, mutex only free 1 ns later: returns late
 ]
 
 
